@@ -266,16 +266,19 @@ func init() {
 		return nil
 	})
 	reg("vFloatCmpInt", func(in *Interp, fr *frame, a []Value) Value {
-		// vFloatCmpInt(f float64, n int) int: exact mathematical comparison (-1,0,1); NaN => 2
+		// vFloatCmpInt(f float64, n int) int: exact mathematical comparison (-1,0,1); NaN => 2.
+		// Requires |n| <= 2^53 (then float64(n) is exact and the float64 comparison is the
+		// mathematical one); the requirement is enforced as an assumption here.
 		f := a[0].(Float)
 		n := a[1].(Int)
-		ft := FPToFP128(f.Term())
-		nt := mk("fp.from_sbv", FP128, n.Term())
+		lim := uint64(1) << 53
+		in.ex.assume(And(BVSle(BVC(64, -lim), n.Term()), BVSle(n.Term(), BVC(64, lim))))
+		ft := f.Term()
+		nt := FPFromBV(64, n.Term(), true)
 		lt := FPLt(ft, nt)
 		eq := FPEq(ft, nt)
-		nan := FPIsNaN(f.Term())
-		k := types.Int
-		return symInt(k, Ite(nan, BVC(64, 2), Ite(lt, BVC(64, ^uint64(0)), Ite(eq, BVC(64, 0), BVC(64, 1)))))
+		nan := FPIsNaN(ft)
+		return symInt(types.Int, Ite(nan, BVC(64, 2), Ite(lt, BVC(64, ^uint64(0)), Ite(eq, BVC(64, 0), BVC(64, 1)))))
 	})
 	reg("vIsNaN", func(in *Interp, fr *frame, a []Value) Value { return symBool(FPIsNaN(a[0].(Float).Term())) })
 	reg("vIsInf", func(in *Interp, fr *frame, a []Value) Value { return symBool(FPIsInf(a[0].(Float).Term())) })
